@@ -33,7 +33,9 @@ fn checks() -> Vec<Check> {
         pure::c09::check(),
         pure::c18::check(),
         sim::c01::check(),
+        sim::c02::check(),
         sim::c03::check(),
+        sim::c05::check(),
     ]
 }
 
